@@ -6,7 +6,7 @@ import props.C01 as B
 
 # clean (exit 0, no KNOWN-FINDING) at seeds 1..5 on the tree with the Hop-Limit fix (branch ws-P04).
 MANIFEST = {
-    "text": 'Proved in Lean, for every abstract message the API can produce, every argument and every capacity (refusals included): coap_insert_option (append path, the middle path with all six next-option header rewrite cases, implicit Hop-Limit), coap_update_option (in-place replacement of the first match with any length change, else insertion), coap_remove_option (first match removed, following delta re-encoded in all six growth cases, or max_opt falling back) and coap_update_token (all three memmove directions) map the PDU representing an abstract (token, ordered option list, payload) message to the PDU representing the abstract edit of the specification; hence any sequence of such edits never leaves the buffer and ends on the PDU representing the same edits applied to the abstract model (edits_then_roundtrip), which serialises and decodes to exactly that model on udp/tcp/ws whenever it is well-formed — and it is well-formed whenever the start message was and every inserted/updated value respects the RFC length limit of its option (edits_then_roundtrip_wf: hypotheses on the inputs only); the PDU the parser leaves behind for a received message is such a representing PDU (parsed_start_is_refined); plus the frame theorems (an edit changes only the element it names, order kept). coap_pdu_duplicate_lkd — the copy the library goes on editing (block-wise transfer, proxy, OSCORE, async) — is covered as the edit sequence "replace the token, remove every option the drop filter names" on a copy without payload (D16: duplicate_is_edit_sequence, duplicate_frame): on the PDU representing any abstract message, for every new token, message id, filter, session size and capacity, the memcpy branch (drop_options NULL) returns NULL exactly when token + options do not fit / the token is over-long, and otherwise the PDU representing the abstract copy whatever the two token lengths are (duplicate_memcpy_refines, closed form); the filter branch returns NULL or the PDU representing the copy with exactly the options not named, numbers/values/order kept, Hop-Limit=16 added only where D13 allows (duplicate_filter_refines); both after any edit sequence and with the round trip of the copy (edits_then_duplicate). A refused edit leaves the PDU exactly as it was (the former open finding — a refused Proxy-Uri/Proxy-Scheme on a request left Hop-Limit=16 behind — is fixed in libcoap and M is transcribed from the fixed code). The model M is tied to the C code by differential runs (edit sequences up to 45 calls on parsed and built messages, thresholds 13/269 crossed in both directions, tight maximum sizes; duplications of parsed / built / edited messages with tokens of equal, neighbouring and other length classes, NULL / empty / overflowing filters, session sizes around the exact fit, further edits on the copy; I vs M vs S byte for byte, per-call digests, the digest of the original after the duplication).',
+    "text": 'Proved in Lean, for every abstract message the API can produce, every argument and every capacity (refusals included): coap_insert_option (append path, the middle path with all six next-option header rewrite cases, implicit Hop-Limit), coap_update_option (in-place replacement of the first match with any length change, else insertion), coap_remove_option (first match removed, following delta re-encoded in all six growth cases, or max_opt falling back) and coap_update_token (all three memmove directions) map the PDU representing an abstract (token, ordered option list, payload) message to the PDU representing the abstract edit of the specification; hence any sequence of such edits never leaves the buffer and ends on the PDU representing the same edits applied to the abstract model (edits_then_roundtrip), which serialises and decodes to exactly that model on udp/tcp/ws whenever it is well-formed — and it is well-formed whenever the start message was and every inserted/updated value respects the RFC length limit of its option (edits_then_roundtrip_wf: hypotheses on the inputs only); the PDU the parser leaves behind for a received message is such a representing PDU (parsed_start_is_refined); plus the frame theorems (an edit changes only the element it names, order kept). coap_pdu_duplicate_lkd — the copy the library goes on editing (block-wise transfer, proxy, OSCORE, async) — is covered as the edit sequence "replace the token, remove every option the drop filter names" on a copy without payload (D16: duplicate_is_edit_sequence, duplicate_frame): on the PDU representing any abstract message, for every new token, message id, filter, session size and capacity, the memcpy branch (drop_options NULL) returns NULL exactly when token + options do not fit / the token is over-long, and otherwise the PDU representing the abstract copy whatever the two token lengths are (duplicate_memcpy_refines, closed form); the filter branch returns NULL or the PDU representing the copy with exactly the options not named, numbers/values/order kept, Hop-Limit=16 added only where D13 allows (duplicate_filter_refines); both after any edit sequence and with the round trip of the copy (edits_then_duplicate). The return code of a removal is prescribed (D17): coap_remove_option returns 1 exactly when the abstract message reached so far holds the option and, on a message without it, returns 0 and changes nothing whichever higher-numbered options follow (remove_absent_changes_nothing, remove_rc_prescribed, edits_rc_prescribed over whole sequences). A refused edit leaves the PDU exactly as it was (the former open finding — a refused Proxy-Uri/Proxy-Scheme on a request left Hop-Limit=16 behind — is fixed in libcoap and M is transcribed from the fixed code). The model M is tied to the C code by differential runs (edit sequences up to 45 calls on parsed and built messages, thresholds 13/269 crossed in both directions, tight maximum sizes; duplications of parsed / built / edited messages with tokens of equal, neighbouring and other length classes, NULL / empty / overflowing filters, session sizes around the exact fit, further edits on the copy; I vs M vs S byte for byte, per-call digests, the digest of the original after the duplication). Oracle independent of M (observation, not theorem): wherever the implementation\'s output differs from M\'s, S is evaluated a second time under the return codes the IMPLEMENTATION reported (driver op respec); a removal that reports 1 on a message without the option / 0 on one with it, or a final message that is not an admissible result of the edits the implementation says it performed, is reported as a contradiction with the specification, not as a broken correspondence.',
     "note": 'Same trusted base and fixes as C01; no open finding. The theorems are about the hand transcription M (Model/Build.lean); M = the compiled code is measured on the generated cases only. The RFC per-option length limits are a hypothesis on the values the caller passes (the API does not enforce them); on tcp the edited message must still fit the 32-bit extended length. M.ofParsed (what coap_pdu_parse leaves in the PDU) is tied to the code by the differential runs. Removal branches are exercised but not individually attributable from the harness output. coap_pdu_duplicate: one libcoap defect fixed on the way (56eb60f: the result of coap_add_token was ignored, a token that did not fit gave a copy WITHOUT token); coap_opt_filter_t is modelled as the set of numbers held (2 long + 6 short slots), the slot/mask layout is tied by the runs only (return value of every filter_set, effect of every filter_get on the copy); the two session calls (new message id, maximum PDU size) are oracles pinned by the harness through tx_mid / mtu of a UDP client session; lg_xmit (a pointer copy) is not observed.',
     "design_ref": "design/C04.md, DESIGN.md §4 C04",
 }
@@ -18,7 +18,9 @@ REQUIRED_THEOREMS = ["edit_frame", "edits_keep_order", "edit_sequence_keeps_orde
                      "edits_then_roundtrip", "parsed_start_is_refined", "edits_keep_wellformed", "edits_then_roundtrip_wf",
                      # coap_pdu_duplicate (D16)
                      "duplicate_is_edit_sequence", "duplicate_frame", "duplicate_memcpy_refines", "duplicate_filter_refines",
-                     "edits_then_duplicate"]
+                     "edits_then_duplicate",
+                     # return codes of removals (D17)
+                     "remove_absent_changes_nothing", "remove_rc_prescribed", "edits_rc_prescribed"]
 NOT_PROVED = []
 RULE = ("edit sequences (coap_insert_option / coap_update_option / coap_remove_option / coap_update_token, mixed with "
         "add_option / add_data) of up to 40 calls applied to (a) messages parsed from generated wire bytes for "
@@ -30,14 +32,18 @@ RULE = ("edit sequences (coap_insert_option / coap_update_option / coap_remove_o
         "branch), empty, or 1-10 numbers drawn from the options of the message, Hop-Limit/Proxy-*, the 255/256 slot boundary, "
         "same-low-byte aliases, more than the 6+2 slots; session maximum size generous, 0, exact fit -3..+8, or random "
         "below; then 0-8 further edits / add_data on the copy; non-trivial = distinct case with at least one accepted "
-        "edit (dup lines: a copy was returned)")
+        "edit (dup lines: a copy was returned); about 30 % of the removals name a number that is ABSENT (next to / between / "
+        "below / above the present ones, +-12/13/268/269 away)")
 TRUSTED_BASE = B.TRUSTED_BASE
 ASSUMPTIONS = B.ASSUMPTIONS + ["a parsed start message is represented by the PDU coap_pdu_parse leaves behind "
                                "(max_opt = last option number, data = offset behind the marker): M.ofParsed, tied by T2"]
 ASSUMPTIONS = ASSUMPTIONS + ["coap_pdu_duplicate: coap_new_message_id_lkd / coap_session_max_pdu_size_lkd are oracles "
                              "(harness: UDP client session, tx_mid and mtu set directly); coap_opt_filter_t = the set of "
                              "numbers successfully set on a cleared filter (6 short + 2 long slots), tied by T2"]
-SPEC_DECISIONS = B.SPEC_DECISIONS + ["D16 coap_pdu_duplicate = on a copy without payload and with the session's next "
+SPEC_DECISIONS = B.SPEC_DECISIONS + ["D17 coap_remove_option returns non-zero exactly when the message holds an option with "
+                                     "that number (a removal needs no room: D14 does not extend to it); on a message "
+                                     "without it the call returns 0 and changes nothing",
+                                     "D16 coap_pdu_duplicate = on a copy without payload and with the session's next "
                                      "message id: token replacement, then removal of every option the filter names; may "
                                      "be refused as a whole (NULL); D13 applies to the copy"]
 
@@ -77,7 +83,16 @@ def gen_edits(rng, nums, code, big, maxn=40):
         if c < 0.45:
             ops += threshold_edits(rng, nums, code, big)
         elif c < 0.60 and nums:
-            ops.append("R%d" % rng.choice(nums))
+            if rng.random() < 0.7:
+                ops.append("R%d" % rng.choice(nums))
+            else:
+                # a number that is (most likely) ABSENT: next to / between / below / above the present ones
+                # (D17: returns 0, changes nothing — whatever follows it in the message)
+                sn = sorted(set(nums))
+                k = rng.randrange(len(sn))
+                cand = [sn[k] - 1, sn[k] + 1, (sn[k] + sn[k - 1]) // 2 if k else sn[0] // 2, sn[0] - 1, sn[-1] + 1,
+                        0, 65535, sn[k] + rng.choice([12, 13, 268, 269]), sn[k] - rng.choice([12, 13, 268, 269])]
+                ops.append("R%d" % min(65535, max(0, rng.choice(cand))))
         elif c < 0.75:
             ops.append("K" + B.val(rng, B.tok_len(rng, big)))
         elif c < 0.9:
@@ -308,6 +323,69 @@ def last_digest(steps, start):
     return st.split(".", 1)[1] if "." in st else None
 
 
+def impl_pattern(line, i):
+    """the 0/1 pattern of the return codes the IMPLEMENTATION reported, as the `respec` op takes it (None: it reported none)"""
+    if line.split(" ", 1)[0] in DUP_IDX:
+        fi = dfields(i)
+        if "steps" not in fi:
+            return None
+        p1 = rc_pattern(fi["steps"]) or "-"
+        if fi.get("dup") == "ok" and "steps2" in fi:
+            return p1 + "/" + (rc_pattern(fi["steps2"]) or "-")
+        return p1 + "/N" if fi.get("dup") == "null" else None
+    fi = fields(i)
+    return (rc_pattern(fi.get("steps")) or "-") if fi else None
+
+
+def npat(p):
+    return p.replace("-", "")
+
+
+def s_pattern(s):
+    return npat(s.split(" ")[0][4:]) if s and s.startswith("rcs=") else None
+
+
+def respec(ctx, cases):
+    """Second pass (hook of vlib/runner.diff_side): where the implementation's output differs from M's, the S column is
+    recomputed under the return codes the IMPLEMENTATION reported (driver op `respec`, Driver/EditSpec.lean), so that it is
+    judged against the specification on its own claims: its final message must be an admissible result of the edits it
+    says it performed, and (D17) a removal must say 1 exactly when the abstract message held the option."""
+    todo = []
+    for c in cases:
+        i = c["impl"]
+        if i is None or i == c["model"] or i.startswith("crash"):
+            continue
+        pat = impl_pattern(c["input"], i)
+        if pat is None or s_pattern(c["spec"]) == npat(pat):
+            continue
+        todo.append((c, pat))
+    if not todo:
+        return
+    outs = C.run_sharded([C.driver_path()], ["respec %s %s" % (pat, c["input"]) for c, pat in todo],
+                         per_line_crash="model-crash")
+    for (c, pat), o in zip(todo, outs):
+        if o and o.startswith("M respec | S "):
+            c["spec_under_model_rcs"] = c["spec"]
+            c["spec"] = o[len("M respec | S "):]
+
+
+def norun_why(line, s, after):
+    """S column `rcs=… [copy ]norun call=<k> op=<call> rc=<0|1>` → the contradiction in words (None: S has a run)"""
+    w = s.split(" ")
+    if "norun" not in w[1:3]:
+        return None
+    d = dict(x.split("=", 1) for x in w if "=" in x)
+    where = " on the copy" if w[1] == "copy" else ""
+    num = d.get("op", "R?")[1:]
+    if d.get("rc") == "1":
+        return ("call #%s%s coap_remove_option(%s) returned non-zero but the abstract message holds no option %s at that "
+                "point: it must return 0 and change nothing (D17); the implementation ends on %s"
+                % (d.get("call"), where, num, num, short(after)))
+    return ("call #%s%s coap_remove_option(%s) returned 0 but the abstract message holds option %s at that point: its "
+            "first occurrence must go and the call return 1 (D17); the implementation ends on %s"
+            % (d.get("call"), where, num, num, short(after)))
+
+
 def judge_dup(ctx, c):
     """coap_pdu_duplicate: the original stays as it was; the copy is the abstract copy (D16) — judged on the accessor dump,
     the serialised bytes and their re-parse; a refused duplication (NULL) is admissible (D14), WHEN it is refused is M's."""
@@ -327,6 +405,11 @@ def judge_dup(ctx, c):
     before = last_digest(fi.get("steps"), start)
     if before is not None and fi.get("old") is not None and fi["old"] != before:
         return ("spec", "coap_pdu_duplicate changed the ORIGINAL: used_size.fnv32 %s -> %s" % (before, fi["old"]))
+    ip = impl_pattern(line, i)
+    if s and s != "skip" and ip is not None and s_pattern(s) == npat(ip):
+        why = norun_why(line, s, fi.get("reparse") or "no copy (NULL)")
+        if why:
+            return ("spec", why)
     if fi.get("dup") == "ok":
         bad = refused_in(ops2, fi.get("steps2"), fi.get("copy"))
         if bad:
@@ -373,6 +456,9 @@ def judge(ctx, c):
         spat = s.split(" ")[0][4:]
         spat = "" if spat == "-" else spat
         if rc_pattern(fi.get("steps")) == spat:
+            why = norun_why(c["input"], s, fi["reparse"])
+            if why:
+                return ("spec", why)
             alts = [(sm, sb) for tag, sm, sb in s_alts(s) if not tag] or [("(no admissible abstract result)", "-")]
             if not any(fi["reparse"] == "ok " + sm for sm, sb in alts):
                 return ("spec", "edited message %s differs from the same edits on the abstract model %s" % (short(fi["reparse"]), short(alts[0][0])))
